@@ -53,6 +53,9 @@ CHECKS = {
  "C18": dict(level="exploration", technique="property-based testing (proptest): generated heading trees and include graphs, model of all simple heading chains from an independent scan compared as sets with Graph::paths, sort-key oracle for global_search with the documented comparator",
    text="The listed paths must equal, as a set, the model's simple chains from top-level headings of unincluded notes through sub-headings and block-reference includes (soundness and completeness); search results must be at most 100 and their sort keys exactly the first keys of all paths under the documented order, with ranks equal to the model's backlink counts.",
    note="Heading levels are generated well-nested; fuzzy scores are recomputed with the same fuzzy-matcher crate (trusted).", ref="7/C18"),
+ "C19": dict(level="fault_enumeration", technique="property-based testing with injected faults: generated directory trees on a real file system, the built iwe binary, RLIMIT_FSIZE byte limits as generated / enumerated fault points under both SIGXFSZ dispositions; differential oracle against the in-memory export",
+   text="Generated trees are normalised by the real binary; without fault every note must hold exactly what Graph::import+export defines and nothing else may change; with a file-size limit k (process killed at byte k, or write error at byte k) every note must hold its complete old or complete new text. For small trees all k up to the longest note are enumerated.",
+   note="Fault points are byte offsets of file writes; kills inside rename/metadata calls and page-cache loss are not modelled.", ref="7/C19"),
  "C20": dict(level="exploration", technique="property-based testing (proptest): generated histories of imports, updates, insertions and patch-graph constructions with an external forest-invariant walker after every step",
    text="After every step of a generated history an external walker over nodes()/graph_node()/keys()/NodePointer checks: roots are documents, DFS visits every live node exactly once, prev pointers match, navigation answers agree with ownership, walk order equals the scanned block order, ids only grow, other notes' nodes are untouched.",
    note="Invariant over the history; the order check skips blocks without a text line.", ref="7/C20"),
